@@ -7,6 +7,7 @@ package roratelimit
 
 //@ operator NewRateLimiter
 //@   props C20 C09
+//@   scope ctx destination keyGetter limiter source subscriberCtx value
 //@   track call.Limiter.Get
 //@   on next(ctx, value) when res(call.Limiter.Get, 1) != nil : emits call.Limiter.Get(_, ctx, keyGetter_0(value)), Error(ctx, res(call.Limiter.Get, 1))
 //@   on next(ctx, value) when res(call.Limiter.Get, 1) == nil && !res(call.Limiter.Get, 0).Reached : emits call.Limiter.Get(_, ctx, keyGetter_0(value)), Next(ctx, value)
